@@ -221,6 +221,10 @@ def check_first_sample(ix, rep, funcs, label, rule='R-SEGOUT'):
                 if isinstance(t, ast.Compare) and len(t.ops) == 1 and isinstance(t.ops[0], ast.NotEq) and isinstance(t.comparators[0], ast.Name) \
                         and isinstance(t.left, (ast.Name, ast.Subscript)):
                     cmp_ = t
+                elif isinstance(t, ast.Compare) and len(t.ops) == 1 and isinstance(t.ops[0], ast.NotEq) and isinstance(t.left, ast.Name) \
+                        and isinstance(t.comparators[0], ast.Subscript):
+                    # previous != value: the same test written the other way round
+                    cmp_ = ast.Compare(left=t.comparators[0], ops=t.ops, comparators=[t.left])
             if cmp_ is None:
                 continue
             appends = [c for s2 in st.body for c in ast.walk(s2) if isinstance(c, ast.Call) and isinstance(c.func, ast.Attribute) and c.func.attr == 'append']
